@@ -213,3 +213,11 @@ def run(ck):
     ck.ob('C04.restart', 'C04.restart/ctor-scans-storage-root', scans, ctor.loc(),
           'some function reachable from the ChunkStore constructor enumerates the storage directory, so files left by an '
           'earlier daemon instance can be wiped (reachable: %s)' % sorted(x.split('::')[-1] for x in reach))
+
+    # ---- the sweep always looks at every record: no summary ("nothing can have expired yet") lets it return before the scan --------
+    from props.common import always_scans
+    sw = P.fn(CS + 'sweep_expired')
+    ck.touch(sw)
+    lps_, wit_ = always_scans(sw, CS + 'chunks_')
+    ck.ob('C04.sweep', 'C04.sweep/always-scans', bool(lps_) and wit_ is None, sw.loc(),
+          'every call of ChunkStore::sweep_expired walks chunks_ (an overwrite can shorten a deadline that a cached "earliest expiry" does not see)', wit_)
